@@ -50,8 +50,19 @@ def write_root(kind):
     ev = bead_events()
     extra = [('$P1V', '400'), ('$P3V', '550'), ('$P1G', '1.0'), ('$BTIM', '10:00:00'), ('$ETIM', '10:01:00'), ('$DATE', '01-JAN-2020')]
     if kind == 'float':
+        # floating-point data with some zero and negative fluorescence events (log-scale code paths clamp those)
+        fev = []
+        for i, r in enumerate(ev):
+            row = [float(x) + 0.25 for x in r]
+            if i % 11 == 0:
+                row[2] = 0.0
+            if i % 13 == 0:
+                row[3] = -2.5
+            if i % 17 == 0:
+                row[2] = -0.5
+            fev.append(row)
         lay = dict(datatype='D', bits=[64] * 4, ranges=[1024] * 4, names=NAMES, pne=['0,0'] * 4, byteord='1,2,3,4', extra=extra,
-                   events=[[fcsgen.float_bits(float(x) + 0.25, 'D') for x in r] for r in ev], analysis=[('AK', 'av')])
+                   events=[[fcsgen.float_bits(x, 'D') for x in r] for r in fev], analysis=[('AK', 'av')])
     else:
         lay = dict(datatype='I', bits=[16] * 4, ranges=[1024] * 4, names=NAMES, pne=['0,0', '0,0', '4,1', '4,1'], byteord='4,3,2,1',
                    extra=extra, events=ev, analysis=[('AK', 'av')])
